@@ -958,6 +958,102 @@ Proof.
     cbn [fst]. eapply inv_struct; [| | |exact I3]; reflexivity.
 Qed.
 
+(* ---------- the streams of the store are untouched by reads and writes ---------- *)
+Lemma set_item_streams h s w r k v : streams (fst (set_item Vf MWf pkgs h s w r k v)) = streams h.
+Proof.
+  unfold set_item. destruct w.
+  - destruct (nth_error (rowrefs h s) r); reflexivity.
+  - unfold by_mass. destruct (c_mass (getcache h (cch s))); cbn [fst snd];
+      match goal with |- context [nth_error ?l r] => destruct (nth_error l r) end; reflexivity.
+  - destruct (nth_error (vv_rows (by_volume h s)) r) as [vr|]; [|reflexivity].
+    destruct (qzerob v); [reflexivity|].
+    destruct (vfactor Vf pkgs h (by_volume h s) vr k) as [V vr']. reflexivity.
+Qed.
+
+Ltac break_ifs := repeat match goal with
+  | |- context [match ?x with _ => _ end] => destruct x
+  | |- context [if ?c then _ else _] => destruct c
+  end.
+
+Lemma by_mass_streams h s : streams (fst (by_mass h s)) = streams h.
+Proof. unfold by_mass. destruct (c_mass (getcache h (cch s))); reflexivity. Qed.
+Lemma get_item_streams h s w r k : streams (fst (get_item Vf MWf pkgs h s w r k)) = streams h.
+Proof.
+  unfold get_item. destruct w.
+  - destruct (nth_error (rowrefs h s) r); reflexivity.
+  - pose proof (by_mass_streams h s) as B. destruct (by_mass h s) as [h1 v]. cbn [fst] in B.
+    destruct (nth_error (mv_rows v) r); exact B.
+  - destruct (nth_error (vv_rows (by_volume h s)) r) as [vr|]; [|reflexivity].
+    destruct (qzerob (nthq (getrow h (vr_dct vr)) k)); [reflexivity|].
+    destruct (vfactor Vf pkgs h (by_volume h s) vr k). reflexivity.
+Qed.
+Lemma read_mass_streams h s : streams (fst (read_mass MWf pkgs h s)) = streams h.
+Proof. unfold read_mass. pose proof (by_mass_streams h s) as B. destruct (by_mass h s). exact B. Qed.
+Lemma read_vol_streams h s : streams (fst (read_vol Vf pkgs h s)) = streams h.
+Proof. unfold read_vol. destruct (read_vrows Vf pkgs h (by_volume h s) (vv_rows (by_volume h s))). reflexivity. Qed.
+Lemma alias_flags_streams h s : streams (fst (alias_flags h s)) = streams h.
+Proof. unfold alias_flags. pose proof (by_mass_streams h s) as B. destruct (by_mass h s). exact B. Qed.
+Lemma map_rows_streams h f l : streams (map_rows h f l) = streams h.
+Proof. apply map_rows_struct. Qed.
+Lemma set_total_streams h s w v : streams (fst (set_total Vf MWf pkgs h s w v)) = streams h.
+Proof.
+  unfold set_total, scale_all, empty_all.
+  destruct w; break_ifs; cbn [fst]; try reflexivity; apply map_rows_streams.
+Qed.
+(* ---------- Stream.reset_flow ---------- *)
+Lemma set_items_streams h s w f fl : streams (set_items Vf MWf pkgs h s w f fl) = streams h.
+Proof.
+  revert h; induction fl as [|[k v] fl IH]; intros h; simpl; auto.
+  rewrite IH. apply set_item_streams.
+Qed.
+Lemma inv_set_items h i s w f fl : Inv h -> nth_error (streams h) i = Some s -> Inv (set_items Vf MWf pkgs h s w f fl).
+Proof.
+  revert h; induction fl as [|[k v] fl IH]; intros h I Hs; simpl; auto.
+  apply IH.
+  - apply inv_set_item with (i := i); auto.
+  - rewrite set_item_streams. exact Hs.
+Qed.
+Lemma reset_flow_pre_struct h s p :
+  arrs (reset_flow_pre h s p) = arrs h /\ caches (reset_flow_pre h s p) = caches h /\ streams (reset_flow_pre h s p) = streams h.
+Proof.
+  unfold reset_flow_pre, empty_all.
+  destruct (map_rows_struct h (fun v => vzero (length v)) (rowrefs h s)) as (A & B & C).
+  destruct p; simpl; auto.
+Qed.
+Lemma inv_reset_flow_pre h s p : Inv h -> Inv (reset_flow_pre h s p).
+Proof. intros I. destruct (reset_flow_pre_struct h s p) as (A & B & C). eapply inv_struct; eauto. Qed.
+
+Lemma inv_reset_flow h i s p u tot fl :
+  Inv h -> nth_error (streams h) i = Some s -> Inv (fst (reset_flow Vf MWf pkgs utab h s p u tot fl)).
+Proof.
+  intros I Hs. unfold reset_flow. destruct (multi s); [exact I|].
+  pose proof (inv_reset_flow_pre h s p I) as I1.
+  assert (Hs1 : nth_error (streams (reset_flow_pre h s p)) i = Some s).
+  { destruct (reset_flow_pre_struct h s p) as (_ & _ & C). rewrite C. exact Hs. }
+  assert (G : forall t, Inv (fst (match (match u with None => Some (VMol, 1) | Some uu => unit_of utab uu end) with
+            | None => (reset_flow_pre h s p, XErr EDim)
+            | Some (w, f) => match t with
+                             | Some x => set_total Vf MWf pkgs (set_items Vf MWf pkgs (reset_flow_pre h s p) s w f fl) s w (x / f)
+                             | None => (set_items Vf MWf pkgs (reset_flow_pre h s p) s w f fl, XNone) end end))).
+  { intros t. destruct (match u with None => Some (VMol, 1) | Some uu => unit_of utab uu end) as [[w f]|]; [|exact I1].
+    pose proof (inv_set_items _ i s w f fl I1 Hs1) as I2.
+    destruct t as [x|]; [|exact I2]. apply inv_set_total with (i := i); [exact I2|rewrite set_items_streams; exact Hs1]. }
+  destruct fl as [|kv fl']; [destruct (nonzero_opt tot) as [x|]; [apply (G (Some x))|exact I1]|apply G].
+Qed.
+Lemma reset_flow_streams h s p u tot fl : streams (fst (reset_flow Vf MWf pkgs utab h s p u tot fl)) = streams h.
+Proof.
+  unfold reset_flow. destruct (multi s); [reflexivity|].
+  destruct (reset_flow_pre_struct h s p) as (_ & _ & C).
+  assert (G : forall t, streams (fst (match (match u with None => Some (VMol, 1) | Some uu => unit_of utab uu end) with
+            | None => (reset_flow_pre h s p, XErr EDim)
+            | Some (w, f) => match t with
+                             | Some x => set_total Vf MWf pkgs (set_items Vf MWf pkgs (reset_flow_pre h s p) s w f fl) s w (x / f)
+                             | None => (set_items Vf MWf pkgs (reset_flow_pre h s p) s w f fl, XNone) end end)) = streams h).
+  { intros t. destruct (match u with None => Some (VMol, 1) | Some uu => unit_of utab uu end) as [[w f]|]; [|exact C].
+    destruct t as [x|]; [rewrite set_total_streams|cbn [fst]]; rewrite set_items_streams; exact C. }
+  destruct fl as [|kv fl']; [destruct (nonzero_opt tot) as [x|]; [apply (G (Some x))|exact C]|apply G].
+Qed.
+
 (* ---------- MultiStream.from_streams ---------- *)
 Lemma nth_error_map_seq {A B} (f : nat * A -> B) (l : list A) : forall b j,
   nth_error (map f (combine (seq b (length l)) l)) j = option_map (fun s => f ((b + j)%nat, s)) (nth_error l j).
@@ -971,10 +1067,10 @@ Lemma retc_self s : retc s (tc s) = s.
 Proof. destruct s; reflexivity. Qed.
 
 (* re-binding thermal-condition objects and appending a multi-phase stream over existing rows, with a new cache *)
-Lemma inv_adopt h (a : list nat) (g : nat -> stream -> stream) snew :
+Lemma inv_adopt h (al : list (list nat)) (g : nat -> stream -> stream) snew :
   Inv h -> (forall j s, exists t, g j s = retc s t) ->
-  cch snew = length (caches h) -> sdata snew = length (arrs h) ->
-  forall h', arrs h' = arrs h ++ [a] -> caches h' = caches h ++ [cache0] ->
+  cch snew = length (caches h) -> (multi snew = true -> (sdata snew < length (arrs h ++ al))%nat) ->
+  forall h', arrs h' = arrs h ++ al -> caches h' = caches h ++ [cache0] ->
   streams h' = map (fun js => g (fst js) (snd js)) (combine (seq O (length (streams h))) (streams h)) ++ [snew] ->
   Inv h'.
 Proof.
@@ -1010,7 +1106,7 @@ Proof.
       * destruct (NEW j' s3 GE' H3) as (_ & E3). subst s3. exfalso. lia.
   - destruct (NEW j s2 GE H2) as (Ej & E2). subst s2.
     split; [|split].
-    + split. rewrite C, app_length; simpl; lia. intros _. rewrite A, app_length; simpl; lia.
+    + split. rewrite C, app_length; simpl; lia. intros M. rewrite A. apply DS. exact M.
     + unfold views_ok, getcache. rewrite C, CS, nth_middle. simpl. split; [intros v Hv|intros t v Hv]; discriminate.
     + intros j' s3 H3 EQ.
       destruct (Nat.lt_ge_cases j' (length (streams h))) as [L'|GE'].
@@ -1048,14 +1144,14 @@ Lemma inv_from_streams h l : Inv h -> Inv (fst (from_streams h l)).
 Proof.
   intros I. destruct (from_streams_cases h l) as [(E & _)|(_ & a & g & snew & G & CS & DS & A & C & _ & S)].
   - rewrite E. exact I.
-  - eapply inv_adopt; eauto.
+  - eapply (inv_adopt h [a]); eauto. intros _. rewrite DS, app_length. simpl. lia.
 Qed.
 
 (* ---------- every operation keeps the invariant; so does every history ---------- *)
 Lemma inv_step h o : Inv h -> Inv (fst (step Vf MWf pkgs utab h o)).
 Proof.
   intros I. unfold step.
-  destruct o as [ |i w|i w|i|i u r k|i u r k v|i u|i u v|i w r k v|i w v|i v|i v|i p|i l|i j f p t|i|i j|i k|i k|i w u r k|i w u r k v|i j w|i w r1 r2|fl];
+  destruct o as [ |i w|i w|i|i u r k|i u r k v|i u|i u v|i w r k v|i w v|i v|i v|i p|i l|i j f p t|i|i j|i k|i k|i w u r k|i w u r k v|i j w|i w r1 r2|fl|i rp ru rt rfl|i r];
     try exact I; try (apply inv_from_streams; exact I);
     (destruct (nth_error (streams h) i) as [s|] eqn:Hs; [|exact I]).
   - destruct w; [exact I| |].
@@ -1092,6 +1188,7 @@ Proof.
   - destruct (nth_error (streams h) j) as [o|] eqn:Ho; [|exact I].
     destruct (Nat.eqb i j); [exact I|]. apply inv_assign_view with (i := i) (j := j); auto.
   - apply inv_copy_row_view with (i := i); auto.
+  - apply inv_reset_flow with (i := i); auto.
 Qed.
 
 Lemma inv_run ops : forall h, Inv h -> Inv (fst (run Vf MWf pkgs utab h ops)).
@@ -1357,17 +1454,6 @@ Proof.
     cbn [me_ph me_T me_P me_V]. rewrite phase_eqb_refl, in_equilibrium_refl. reflexivity.
 Qed.
 
-Lemma set_item_streams h s w r k v : streams (fst (set_item Vf MWf pkgs h s w r k v)) = streams h.
-Proof.
-  unfold set_item. destruct w.
-  - destruct (nth_error (rowrefs h s) r); reflexivity.
-  - unfold by_mass. destruct (c_mass (getcache h (cch s))); cbn [fst snd];
-      match goal with |- context [nth_error ?l r] => destruct (nth_error l r) end; reflexivity.
-  - destruct (nth_error (vv_rows (by_volume h s)) r) as [vr|]; [|reflexivity].
-    destruct (qzerob v); [reflexivity|].
-    destruct (vfactor Vf pkgs h (by_volume h s) vr k) as [V vr']. reflexivity.
-Qed.
-
 Hypothesis MW_nonzero : forall g, ~ MWf g == 0.
 Hypothesis Vf_nonzero : forall g p T P, ~ Vf g p T P == 0.
 
@@ -1487,6 +1573,63 @@ Proof.
   - destruct (qzerob F); cbn [fst uh with_heap]; [exact I1|apply MR].
 Qed.
 
+Lemma set_totalU_streams U i s w v : streams (uh (fst (set_totalU Vf MWf pkgs U i s w v))) = streams (uh U).
+Proof.
+  unfold set_totalU. destruct (totalU_uh U i s w) as (A & _).
+  destruct (totalU Vf MWf pkgs U i s w) as [U1 F]. cbn [fst] in A.
+  unfold scale_all, empty_all.
+  destruct w; repeat match goal with |- context [if ?c then _ else _] => destruct c end;
+    cbn [fst uh with_heap]; rewrite ?map_rows_streams; rewrite A; reflexivity.
+Qed.
+
+Definition rf_tail U1 (i : nat) s (w : view) (f : Q) (fl : list (nat * Q)) (t : option Q) : ustate * outcome :=
+  match t with
+  | Some x => set_totalU Vf MWf pkgs (with_heap U1 (set_items Vf MWf pkgs (uh U1) s w f fl)) i s w (x / f)
+  | None => (with_heap U1 (set_items Vf MWf pkgs (uh U1) s w f fl), XNone)
+  end.
+Lemma inv_rf_tail U1 i s w f fl t : Inv (uh U1) -> nth_error (streams (uh U1)) i = Some s -> Inv (uh (fst (rf_tail U1 i s w f fl t))).
+Proof.
+  intros I Hs. unfold rf_tail. pose proof (inv_set_items (uh U1) i s w f fl I Hs) as I2.
+  destruct t as [x|]; [|exact I2]. apply inv_set_totalU; cbn [uh with_heap]; [exact I2|rewrite set_items_streams; exact Hs].
+Qed.
+(* the part of Stream.reset_flow after the emptying and the new phase, in the machine with the units caches and the memo *)
+Definition rf_rest U0 (i : nat) s (ru : option nat) (fl : list (nat * Q)) (t : option Q) : ustate * outcome :=
+  let '(U1, q) := match ru with None => (U0, Ok (VMol, 1)) | Some uu => flow_lookup utab U0 uu end in
+  match q with
+  | Err e => (U1, XErr e)
+  | Ok (w, f) => rf_tail U1 i s w f fl t
+  end.
+Lemma stepU_reset_flow U i rp ru rt rfl s : nth_error (streams (uh U)) i = Some s -> multi s = false ->
+  stepU Vf MWf pkgs utab U (OResetFlow i rp ru rt rfl) =
+  match rfl, nonzero_opt rt with
+  | [], None => (with_heap U (reset_flow_pre (uh U) s rp), XNone)
+  | _, t => rf_rest (with_heap U (reset_flow_pre (uh U) s rp)) i s ru rfl t
+  end.
+Proof.
+  intros Hs M. unfold stepU. rewrite Hs, M. unfold rf_rest, rf_tail.
+  destruct rfl as [|kv fl']; destruct (nonzero_opt rt) as [x|]; try reflexivity;
+    destruct ru as [uu|]; try reflexivity;
+    destruct (flow_lookup utab (with_heap U (reset_flow_pre (uh U) s rp)) uu) as [U1 [[w f]|e]]; reflexivity.
+Qed.
+Lemma inv_rf_rest U0 i s ru fl t : Inv (uh U0) -> nth_error (streams (uh U0)) i = Some s -> Inv (uh (fst (rf_rest U0 i s ru fl t))).
+Proof.
+  intros I Hs. unfold rf_rest. destruct ru as [uu|].
+  - destruct (flow_lookup_uh U0 uu) as (A & _). destruct (flow_lookup utab U0 uu) as [U1 [[w f]|e]]; cbn [fst] in *.
+    + apply inv_rf_tail; rewrite A; auto.
+    + rewrite A. exact I.
+  - apply inv_rf_tail; auto.
+Qed.
+Lemma inv_stepU_reset U i rp ru rt rfl : Inv (uh U) -> Inv (uh (fst (stepU Vf MWf pkgs utab U (OResetFlow i rp ru rt rfl)))).
+Proof.
+  intros I. destruct (nth_error (streams (uh U)) i) as [s|] eqn:Hs; [|unfold stepU; rewrite Hs; exact I].
+  destruct (multi s) eqn:M; [unfold stepU; rewrite Hs, M; exact I|].
+  rewrite (stepU_reset_flow U i rp ru rt rfl s Hs M).
+  assert (I0 : Inv (uh (with_heap U (reset_flow_pre (uh U) s rp)))) by (apply inv_reset_flow_pre; exact I).
+  assert (Hs0 : nth_error (streams (uh (with_heap U (reset_flow_pre (uh U) s rp)))) i = Some s).
+  { cbn [uh with_heap]. rewrite (proj2 (proj2 (reset_flow_pre_struct (uh U) s rp))). exact Hs. }
+  destruct rfl as [|kv fl']; [destruct (nonzero_opt rt) as [x|]; [|exact I0]|]; apply inv_rf_rest; auto.
+Qed.
+
 Lemma inv_stepU_from U fl : Inv (uh U) -> Inv (uh (fst (stepU Vf MWf pkgs utab U (OFromStreams fl)))).
 Proof.
   intros I. pose proof (inv_step (uh U) (OFromStreams fl) I) as X. unfold stepU, liftU.
@@ -1500,8 +1643,8 @@ Proof.
   assert (D : Inv (uh (fst (liftU U (step Vf MWf pkgs utab (uh U) o))))).
   { unfold liftU. cbn [fst uh with_heap]. apply inv_step. exact I. }
   unfold stepU.
-  destruct o as [ |i w|i w|i|i u r k|i u r k v|i u|i u v|i w r k v|i w v|i v|i v|i p|i l|i j f p t|i|i j|i k|i k|i w u r k|i w u r k v|i j w|i w r1 r2|fl];
-    try exact D; try (apply inv_stepU_from; exact I);
+  destruct o as [ |i w|i w|i|i u r k|i u r k v|i u|i u v|i w r k v|i w v|i v|i v|i p|i l|i j f p t|i|i j|i k|i k|i w u r k|i w u r k v|i j w|i w r1 r2|fl|i rp ru rt rfl|i r];
+    try exact D; try (apply inv_stepU_from; exact I); try (apply inv_stepU_reset; exact I);
     (destruct (nth_error (streams (uh U)) i) as [s|] eqn:Hs; [|try exact I]).
   - destruct (totalU_uh U i s w) as (A & _). destruct (totalU Vf MWf pkgs U i s w) as [U1 x]. cbn [fst] in *. rewrite A. exact I.
   - destruct (flow_lookup_uh U u) as (A & _). destruct (flow_lookup utab U u) as [U1 [[w f]|e]]; cbn [fst] in *.
@@ -1591,6 +1734,33 @@ Proof.
     + apply Y1.
 Qed.
 
+Lemma UC_set_totalU U1 i s w v : UC U1 -> UC (fst (set_totalU Vf MWf pkgs U1 i s w v)).
+Proof.
+  intros UC1. unfold set_totalU. destruct (totalU_uh U1 i s w) as (_ & A & B).
+  destruct (totalU Vf MWf pkgs U1 i s w) as [U2 F]. cbn [fst] in *.
+  assert (UC2 : UC U2) by (eapply UC_ext; eauto).
+  destruct w; repeat match goal with |- context [if ?c then _ else _] => destruct c end;
+    cbn [fst]; try exact UC2; (eapply UC_ext; [| |exact UC2]; reflexivity).
+Qed.
+Lemma UC_stepU_reset U i rp ru rt rfl : UC U -> UC (fst (stepU Vf MWf pkgs utab U (OResetFlow i rp ru rt rfl))).
+Proof.
+  intros C. destruct (nth_error (streams (uh U)) i) as [s|] eqn:Hs; [|unfold stepU; rewrite Hs; exact C].
+  destruct (multi s) eqn:M; [unfold stepU; rewrite Hs, M; exact C|].
+  rewrite (stepU_reset_flow U i rp ru rt rfl s Hs M).
+  assert (C0 : UC (with_heap U (reset_flow_pre (uh U) s rp))) by (eapply UC_ext; [| |exact C]; reflexivity).
+  assert (G : forall t, UC (fst (rf_rest (with_heap U (reset_flow_pre (uh U) s rp)) i s ru rfl t))).
+  { intros t. unfold rf_rest.
+    assert (T : forall U1 w f, UC U1 -> UC (fst (rf_tail U1 i s w f rfl t))).
+    { intros U1 w f C1. unfold rf_tail. destruct t as [x|].
+      - apply UC_set_totalU. eapply UC_ext; [| |exact C1]; reflexivity.
+      - cbn [fst]. eapply UC_ext; [| |exact C1]; reflexivity. }
+    destruct ru as [uu|].
+    - destruct (flow_lookup_ok (with_heap U (reset_flow_pre (uh U) s rp)) uu C0) as (_ & B).
+      destruct (flow_lookup utab (with_heap U (reset_flow_pre (uh U) s rp)) uu) as [U1 [[w f]|e]]; cbn [fst] in *; [apply T; exact B|exact B].
+    - apply T. exact C0. }
+  destruct rfl as [|kv fl']; [destruct (nonzero_opt rt) as [x|]; [apply G|exact C0]|apply G].
+Qed.
+
 Lemma UC_stepU_from U fl : UC U -> UC (fst (stepU Vf MWf pkgs utab U (OFromStreams fl))).
 Proof.
   intros C. unfold stepU, liftU.
@@ -1609,8 +1779,8 @@ Proof.
     destruct w; repeat match goal with |- context [if ?c then _ else _] => destruct c end;
       cbn [fst]; try exact UC2; (eapply UC_ext; [| |exact UC2]; reflexivity). }
   unfold stepU.
-  destruct o as [ |i w|i w|i|i u r k|i u r k v|i u|i u v|i w r k v|i w v|i v|i v|i p|i l|i j f p t|i|i j|i k|i k|i w u r k|i w u r k v|i j w|i w r1 r2|fl];
-    try exact D; try (apply UC_stepU_from; exact UCU);
+  destruct o as [ |i w|i w|i|i u r k|i u r k v|i u|i u v|i w r k v|i w v|i v|i v|i p|i l|i j f p t|i|i j|i k|i k|i w u r k|i w u r k v|i j w|i w r1 r2|fl|i rp ru rt rfl|i r];
+    try exact D; try (apply UC_stepU_from; exact UCU); try (apply UC_stepU_reset; exact UCU);
     (destruct (nth_error (streams (uh U)) i) as [s|] eqn:Hs; [|try exact UCU]).
   - destruct (totalU_uh U i s w) as (_ & A & B). destruct (totalU Vf MWf pkgs U i s w) as [U1 x]. cbn [fst] in *.
     eapply UC_ext; eauto.
@@ -1683,36 +1853,6 @@ Proof.
   - rewrite nth_error_upd_other in H by auto. exists x. auto.
 Qed.
 
-Ltac break_ifs := repeat match goal with
-  | |- context [match ?x with _ => _ end] => destruct x
-  | |- context [if ?c then _ else _] => destruct c
-  end.
-
-Lemma by_mass_streams h s : streams (fst (by_mass h s)) = streams h.
-Proof. unfold by_mass. destruct (c_mass (getcache h (cch s))); reflexivity. Qed.
-Lemma get_item_streams h s w r k : streams (fst (get_item Vf MWf pkgs h s w r k)) = streams h.
-Proof.
-  unfold get_item. destruct w.
-  - destruct (nth_error (rowrefs h s) r); reflexivity.
-  - pose proof (by_mass_streams h s) as B. destruct (by_mass h s) as [h1 v]. cbn [fst] in B.
-    destruct (nth_error (mv_rows v) r); exact B.
-  - destruct (nth_error (vv_rows (by_volume h s)) r) as [vr|]; [|reflexivity].
-    destruct (qzerob (nthq (getrow h (vr_dct vr)) k)); [reflexivity|].
-    destruct (vfactor Vf pkgs h (by_volume h s) vr k). reflexivity.
-Qed.
-Lemma read_mass_streams h s : streams (fst (read_mass MWf pkgs h s)) = streams h.
-Proof. unfold read_mass. pose proof (by_mass_streams h s) as B. destruct (by_mass h s). exact B. Qed.
-Lemma read_vol_streams h s : streams (fst (read_vol Vf pkgs h s)) = streams h.
-Proof. unfold read_vol. destruct (read_vrows Vf pkgs h (by_volume h s) (vv_rows (by_volume h s))). reflexivity. Qed.
-Lemma alias_flags_streams h s : streams (fst (alias_flags h s)) = streams h.
-Proof. unfold alias_flags. pose proof (by_mass_streams h s) as B. destruct (by_mass h s). exact B. Qed.
-Lemma map_rows_streams h f l : streams (map_rows h f l) = streams h.
-Proof. apply map_rows_struct. Qed.
-Lemma set_total_streams h s w v : streams (fst (set_total Vf MWf pkgs h s w v)) = streams h.
-Proof.
-  unfold set_total, scale_all, empty_all.
-  destruct w; break_ifs; cbn [fst]; try reflexivity; apply map_rows_streams.
-Qed.
 Lemma touch_view_streams h s w : streams (touch_view h s w) = streams h.
 Proof. destruct w; simpl; try reflexivity. apply by_mass_streams. Qed.
 Lemma assign_view_streams h s o w : streams (fst (assign_view Vf MWf pkgs h s o w)) = streams h.
@@ -1855,7 +1995,7 @@ Lemma step_PKP h o i' : (forall i k, o <> OThermo i k) -> (forall l, o <> OFromS
   (forall i, tgt o = Some i -> i = i') -> PKP i' h (fst (step Vf MWf pkgs utab h o)).
 Proof.
   intros NT NF TG. unfold step.
-  destruct o as [ |i w|i w|i|i u r k|i u r k v|i u|i u v|i w r k v|i w v|i v|i v|i p|i l|i j f p t|i|i j|i k|i k|i w u r k|i w u r k v|i j w|i w r1 r2|fl];
+  destruct o as [ |i w|i w|i|i u r k|i u r k v|i u|i u v|i w r k v|i w v|i v|i v|i p|i l|i j f p t|i|i j|i k|i k|i w u r k|i w u r k v|i j w|i w r1 r2|fl|i rp ru rt rfl|i r];
     try (apply PKP_same; reflexivity); try (exfalso; eapply NF; reflexivity);
     (destruct (nth_error (streams h) i) as [s|] eqn:Hs; [|apply PKP_same; reflexivity]).
   - apply PKP_same. destruct w; [reflexivity| |].
@@ -1887,6 +2027,7 @@ Proof.
   - apply PKP_same. destruct (nth_error (streams h) j) as [o|]; [|reflexivity].
     destruct (Nat.eqb i j); [reflexivity|]. apply assign_view_streams.
   - apply PKP_same. apply copy_row_view_streams.
+  - apply PKP_same. apply reset_flow_streams.
 Qed.
 
 (* ---------- the property memo: what F_vol reads is the mixture volume of the CURRENT state ---------- *)
@@ -1981,6 +2122,51 @@ Qed.
 Lemma nth_upd_none {A} (l : list (option A)) n : nth n (upd l n None) None = None.
 Proof. revert n; induction l as [|a l IH]; intros [|n]; simpl; auto. Qed.
 
+Lemma rf_rest_streams U0 i s ru fl t : streams (uh (fst (rf_rest U0 i s ru fl t))) = streams (uh U0).
+Proof.
+  unfold rf_rest.
+  assert (T : forall U1 w f, streams (uh (fst (rf_tail U1 i s w f fl t))) = streams (uh U1)).
+  { intros U1 w f. unfold rf_tail. destruct t as [x|].
+    - rewrite set_totalU_streams. cbn [uh with_heap]. apply set_items_streams.
+    - cbn [fst uh with_heap]. apply set_items_streams. }
+  destruct ru as [uu|]; [|apply T].
+  destruct (flow_lookup_uh U0 uu) as (A & _). destruct (flow_lookup utab U0 uu) as [U1 [[w f]|e]]; cbn [fst] in *.
+  - rewrite T, A. reflexivity.
+  - rewrite A. reflexivity.
+Qed.
+Lemma PM_rf_rest U0 i s ru fl t : PM U0 -> nth_error (streams (uh U0)) i = Some s -> PM (fst (rf_rest U0 i s ru fl t)).
+Proof.
+  intros P Hs. unfold rf_rest.
+  assert (T : forall U1 w f, PM U1 -> nth_error (streams (uh U1)) i = Some s -> PM (fst (rf_tail U1 i s w f fl t))).
+  { intros U1 w f P1 H1. unfold rf_tail.
+    assert (P2 : PM (with_heap U1 (set_items Vf MWf pkgs (uh U1) s w f fl))).
+    { eapply (PM_ext O); [| |exact P1]; [|reflexivity]. apply PKP_same. cbn [uh with_heap]. apply set_items_streams. }
+    destruct t as [x|]; [|exact P2]. apply set_totalU_PM; [exact P2|]. cbn [uh with_heap]. rewrite set_items_streams. exact H1. }
+  destruct ru as [uu|]; [|apply T; auto].
+  destruct (flow_lookup_uh U0 uu) as (A & B). destruct (flow_lookup utab U0 uu) as [U1 [[w f]|e]]; cbn [fst] in *.
+  - apply T; [|rewrite A; exact Hs]. eapply (PM_ext O); [| |exact P]; [apply PKP_same; rewrite A; reflexivity|exact B].
+  - eapply (PM_ext O); [| |exact P]; [apply PKP_same; rewrite A; reflexivity|exact B].
+Qed.
+Lemma PM_stepU_reset U i rp ru rt rfl : PM U -> PM (fst (stepU Vf MWf pkgs utab U (OResetFlow i rp ru rt rfl))).
+Proof.
+  intros P. destruct (nth_error (streams (uh U)) i) as [s|] eqn:Hs; [|unfold stepU; rewrite Hs; exact P].
+  destruct (multi s) eqn:M; [unfold stepU; rewrite Hs, M; exact P|].
+  rewrite (stepU_reset_flow U i rp ru rt rfl s Hs M).
+  assert (E0 : streams (reset_flow_pre (uh U) s rp) = streams (uh U)) by apply (proj2 (proj2 (reset_flow_pre_struct (uh U) s rp))).
+  assert (P0 : PM (with_heap U (reset_flow_pre (uh U) s rp))).
+  { eapply (PM_ext O); [| |exact P]; [|reflexivity]. apply PKP_same. exact E0. }
+  assert (Hs0 : nth_error (streams (uh (with_heap U (reset_flow_pre (uh U) s rp)))) i = Some s) by (cbn [uh with_heap]; rewrite E0; exact Hs).
+  destruct rfl as [|kv fl']; [destruct (nonzero_opt rt) as [x|]; [|exact P0]|]; apply PM_rf_rest; auto.
+Qed.
+Lemma stepU_reset_streams U i rp ru rt rfl : streams (uh (fst (stepU Vf MWf pkgs utab U (OResetFlow i rp ru rt rfl)))) = streams (uh U).
+Proof.
+  destruct (nth_error (streams (uh U)) i) as [s|] eqn:Hs; [|unfold stepU; rewrite Hs; reflexivity].
+  destruct (multi s) eqn:M; [unfold stepU; rewrite Hs, M; reflexivity|].
+  rewrite (stepU_reset_flow U i rp ru rt rfl s Hs M).
+  assert (E0 : streams (reset_flow_pre (uh U) s rp) = streams (uh U)) by apply (proj2 (proj2 (reset_flow_pre_struct (uh U) s rp))).
+  destruct rfl as [|kv fl']; [destruct (nonzero_opt rt) as [x|]; [|exact E0]|]; rewrite rf_rest_streams; exact E0.
+Qed.
+
 Lemma PM_stepU_from U fl : PM U -> PM (fst (stepU Vf MWf pkgs utab U (OFromStreams fl))).
 Proof.
   intros P. unfold stepU, liftU, step.
@@ -2010,8 +2196,8 @@ Proof.
   { intros NT NF. eapply (PM_ext (match tgt o with Some i => i | None => O end)); [| |exact P]; [|reflexivity]. unfold liftU. cbn [fst uh with_heap].
     apply step_PKP; try assumption. intros i E. rewrite E. reflexivity. }
   unfold stepU.
-  destruct o as [ |i w|i w|i|i u r k|i u r k v|i u|i u v|i w r k v|i w v|i v|i v|i p|i l|i j f p t|i|i j|i k|i k|i w u r k|i w u r k v|i j w|i w r1 r2|fl];
-    try (apply PM_stepU_from; exact P); try (apply D; [intros; discriminate|intros; discriminate]);
+  destruct o as [ |i w|i w|i|i u r k|i u r k v|i u|i u v|i w r k v|i w v|i v|i v|i p|i l|i j f p t|i|i j|i k|i k|i w u r k|i w u r k v|i j w|i w r1 r2|fl|i rp ru rt rfl|i r];
+    try (apply PM_stepU_from; exact P); try (apply PM_stepU_reset; exact P); try (apply D; [intros; discriminate|intros; discriminate]);
     (destruct (nth_error (streams (uh U)) i) as [s|] eqn:Hs; [|try exact P]).
   - pose proof (totalU_PM U i s w P Hs) as X. destruct (totalU Vf MWf pkgs U i s w) as [U1 x]. exact X.
   - destruct (flow_lookup_uh U u) as (A & B). destruct (flow_lookup utab U u) as [U1 [[w f]|e]]; cbn [fst] in *.
@@ -2128,15 +2314,6 @@ Proof.
 Qed.
 
 (* ---------- which index dict the molar indexer consults ---------- *)
-Lemma set_totalU_streams U i s w v : streams (uh (fst (set_totalU Vf MWf pkgs U i s w v))) = streams (uh U).
-Proof.
-  unfold set_totalU. destruct (totalU_uh U i s w) as (A & _).
-  destruct (totalU Vf MWf pkgs U i s w) as [U1 F]. cbn [fst] in A.
-  unfold scale_all, empty_all.
-  destruct w; repeat match goal with |- context [if ?c then _ else _] => destruct c end;
-    cbn [fst uh with_heap]; rewrite ?map_rows_streams; rewrite A; reflexivity.
-Qed.
-
 Lemma stepU_PKP U o i' : (forall i k, o <> OThermo i k) -> (forall l, o <> OFromStreams l) ->
   (forall i, tgt o = Some i -> i = i') -> PKP i' (uh U) (uh (fst (stepU Vf MWf pkgs utab U o))).
 Proof.
@@ -2144,8 +2321,8 @@ Proof.
   assert (D : PKP i' (uh U) (uh (fst (liftU U (step Vf MWf pkgs utab (uh U) o))))).
   { unfold liftU. cbn [fst uh with_heap]. apply step_PKP; assumption. }
   unfold stepU.
-  destruct o as [ |i w|i w|i|i u r k|i u r k v|i u|i u v|i w r k v|i w v|i v|i v|i p|i l|i j f p t|i|i j|i k|i k|i w u r k|i w u r k v|i j w|i w r1 r2|fl];
-    try exact D; try (exfalso; eapply NF; reflexivity);
+  destruct o as [ |i w|i w|i|i u r k|i u r k v|i u|i u v|i w r k v|i w v|i v|i v|i p|i l|i j f p t|i|i j|i k|i k|i w u r k|i w u r k v|i j w|i w r1 r2|fl|i rp ru rt rfl|i r];
+    try exact D; try (exfalso; eapply NF; reflexivity); try (apply PKP_same; apply stepU_reset_streams);
     (destruct (nth_error (streams (uh U)) i) as [s|] eqn:Hs; [|try (apply PKP_same; reflexivity)]).
   - destruct (totalU_uh U i s w) as (A & _). destruct (totalU Vf MWf pkgs U i s w) as [U1 x]. cbn [fst] in *. apply PKP_same. rewrite A. reflexivity.
   - destruct (flow_lookup_uh U u) as (A & _). destruct (flow_lookup utab U u) as [U1 [[w f]|e]]; cbn [fst] in *; apply PKP_same.
@@ -2245,7 +2422,7 @@ Proof.
   - destruct (stepU Vf MWf pkgs utab (ku K) o) as [U1 x] eqn:SU. cbn [fst].
     assert (UH : uh U1 = uh (fst (stepU Vf MWf pkgs utab (ku K) o))) by (rewrite SU; reflexivity).
     assert (XH : x = snd (stepU Vf MWf pkgs utab (ku K) o)) by (rewrite SU; reflexivity).
-    destruct o as [ |i w|i w|i|i u r k|i u r k v|i u|i u v|i w r k v|i w v|i v|i v|i p|i l|i j f p t|i|i j|i kk|i kk|i w u r k|i w u r k v|i j w|i w r1 r2|fl];
+    destruct o as [ |i w|i w|i|i u r k|i u r k v|i u|i u v|i w r k v|i w v|i v|i v|i p|i l|i j f p t|i|i j|i kk|i kk|i w u r k|i w u r k v|i j w|i w r1 r2|fl|i rp ru rt rfl|i r];
       simpl in KQ; try discriminate; cbn [reselects];
       try (apply ICI_keep; [exact I|]; intros i'; rewrite UH; apply stepU_PKP; intros; discriminate);
       try (apply ICI_refresh; [exact I|]; apply PKP_SHP; rewrite UH; apply stepU_PKP; intros; try discriminate;
@@ -2312,6 +2489,189 @@ Proof.
   { destruct (stepK_stepU K o) as [E|(o1 & E)]; rewrite E; auto. }
   destruct (stepK Vf MWf pkgs utab K o) as [K1 x]. cbn [fst] in H1.
   specialize (IH K1 H1). destruct (runK Vf MWf pkgs utab K1 ops) as [K2 xs]. exact IH.
+Qed.
+
+(* ====================================================================================
+   The outermost layer: phase streams of a MultiStream (stepS)
+   ==================================================================================== *)
+Definition KInv K : Prop := Inv (uh (ku K)) /\ UC (ku K) /\ PM (ku K) /\ ICI K.
+
+Lemma KInv_stepK K o : KInv K -> KInv (fst (stepK Vf MWf pkgs utab K o)).
+Proof.
+  intros (I & C & P & IC). pose proof (ICI_stepK K o IC) as IC1.
+  destruct (stepK_stepU K o) as [E|(o1 & E)].
+  - rewrite E. split; [exact I|split; [exact C|split; [exact P|rewrite E in IC1; exact IC1]]].
+  - unfold KInv. rewrite E. split; [apply inv_stepU; exact I|split; [apply UC_stepU; exact C|split; [apply PM_stepU; exact P|exact IC1]]].
+Qed.
+
+Lemma ICI_same K K' : uh (ku K') = uh (ku K) -> k_ic K' = k_ic K -> ICI K -> ICI K'.
+Proof. intros A B (L & IC). unfold ICI, ic_get. rewrite A, B. split; auto. Qed.
+
+Lemma KInv_pm_reset K c : KInv K -> KInv (k_pm_reset K c).
+Proof.
+  intros (I & C & P & IC). unfold k_pm_reset. split; [|split; [|split]]; cbn [ku].
+  - exact I.
+  - eapply UC_ext; [| |exact C]; reflexivity.
+  - apply PM_reset. exact P.
+  - eapply ICI_same; [| |exact IC]; reflexivity.
+Qed.
+Lemma KInv_reset_memos l : forall K, KInv K -> KInv (reset_memos K l).
+Proof. induction l as [|[j [p c]] l IH]; intros K H; simpl; auto. apply IH. apply KInv_pm_reset. exact H. Qed.
+
+Lemma KInv_repoint K c row p pk : KInv K -> KInv (fst (repoint K c row p pk)).
+Proof.
+  intros HK. pose proof HK as (I & C & P & IC). unfold repoint.
+  destruct (nth_error (streams (uh (ku K))) c) as [sc|] eqn:Hc; [|exact HK].
+  destruct (multi sc) eqn:M; [exact HK|].
+  cbn [new_cache new_box fst snd].
+  set (h := uh (ku K)) in *.
+  set (s' := mkstream false row (length (boxes (set_caches h (caches h ++ [cache0])))) [] pk (length (caches h)) (tc sc)).
+  set (h2 := set_boxes (set_caches h (caches h ++ [cache0])) (boxes (set_caches h (caches h ++ [cache0])) ++ [p])).
+  assert (LC : (c < length (streams h))%nat) by (eapply nth_error_lt; eauto).
+  unfold KInv, k_pm_reset, k_with_heap. cbn [ku k_ic uh with_heap pm_set].
+  split; [|split; [|split]].
+  - eapply (inv_rebind h h2 c sc s' []); eauto; try reflexivity. simpl. rewrite app_nil_r. reflexivity. intros Q; discriminate.
+  - eapply UC_ext; [| |exact C]; reflexivity.
+  - intros j k v s2 G H. unfold pm_get in G. simpl in G, H.
+    destruct (Nat.eq_dec j c) as [Q|N].
+    + subst j. exfalso. destruct (Nat.lt_ge_cases c (length (u_pm (ku K)))) as [L|GE].
+      * rewrite nth_upd_eq in G by auto. discriminate.
+      * rewrite nth_overflow in G by (rewrite upd_length; auto). discriminate.
+    + rewrite nth_upd_neq in G by auto. rewrite nth_error_upd_other in H by auto. apply (P j k v s2); auto.
+  - destruct IC as (L & X). split; cbn [ku k_ic uh]; simpl.
+    + rewrite upd_length. exact L.
+    + intros j s2 H. simpl in H. destruct (Nat.eq_dec j c) as [Q|N].
+      * subst j. rewrite nth_error_upd_same in H by auto. inversion H; subst s2.
+        change (ic_get K c = ic_of s'). rewrite (X c sc Hc). unfold ic_of. rewrite M. reflexivity.
+      * rewrite nth_error_upd_other in H by auto. change (ic_get K j = ic_of s2). apply X. exact H.
+Qed.
+
+Lemma KInv_repoint_all check sp l : forall K, KInv K -> KInv (fst (fst (repoint_all K check sp l))).
+Proof.
+  induction l as [|[i [p c]] l IH]; intros K H; simpl; auto.
+  destruct (pindex (phs sp) p) as [r|]; [|apply IH; exact H].
+  match goal with |- context [if ?b then _ else _] => destruct b end; [|apply IH; exact H].
+  pose proof (KInv_repoint K c (nth r (getarr (uh (ku K)) (sdata sp)) O) p (pkg sp) H) as H1.
+  destruct (repoint K c (nth r (getarr (uh (ku K)) (sdata sp)) O) p (pkg sp)) as [K1 b]. cbn [fst] in H1.
+  specialize (IH K1 H1). destruct (repoint_all K1 check sp l) as [[K2 keep] bs]. exact IH.
+Qed.
+
+(* one more single-phase stream (with a new, empty view cache) at the end of the store *)
+Lemma KInv_grow K h3 snew :
+  KInv K -> multi snew = false -> cch snew = length (caches (uh (ku K))) ->
+  arrs h3 = arrs (uh (ku K)) -> caches h3 = caches (uh (ku K)) ++ [cache0] ->
+  streams h3 = streams (uh (ku K)) ++ [snew] ->
+  KInv (k_grow K h3 (length (streams (uh (ku K))))).
+Proof.
+  intros (I & C & P & IC) M CS A CC S. set (h := uh (ku K)) in *. set (n := length (streams h)).
+  assert (MS : map (fun js : nat * stream => snd js) (combine (seq O (length (streams h))) (streams h)) = streams h).
+  { clear. generalize O. induction (streams h) as [|x l IH]; intros b; simpl; auto. f_equal. apply IH. }
+  unfold KInv, k_grow. cbn [ku k_ic uh]. split; [|split; [|split]].
+  - eapply (inv_adopt h [] (fun _ s => s) snew I); eauto.
+    + intros j s. exists (tc s). symmetry. apply retc_self.
+    + intros Q. congruence.
+    + rewrite app_nil_r. exact A.
+    + rewrite S. f_equal. symmetry. exact MS.
+  - eapply UC_ext; [| |exact C]; reflexivity.
+  - intros j k v s2 G H. unfold pm_get in G. cbn [u_pm uh] in G, H. rewrite S in H.
+    destruct (Nat.eq_dec j n) as [Q|N].
+    + subst j. rewrite nth_upd_none in G. discriminate.
+    + rewrite nth_upd_neq in G by auto. rewrite nth_app_none in G.
+      destruct (Nat.lt_ge_cases j n) as [L|GE].
+      * rewrite nth_error_app1 in H by (unfold n in L; exact L). apply (P j k v s2); auto.
+      * rewrite nth_error_app2 in H by (unfold n in GE; exact GE).
+        destruct (j - length (streams h))%nat as [|m] eqn:Q; simpl in H; [exfalso; unfold n in *; lia|destruct m; discriminate].
+  - destruct IC as (L & X). split; cbn [ku k_ic uh].
+    + rewrite upd_length, app_length, S, app_length, L. reflexivity.
+    + intros j s2 H. rewrite S in H. unfold ic_get. cbn [k_ic].
+      destruct (Nat.eq_dec j n) as [Q|N].
+      * subst j. rewrite nth_error_app2 in H by (unfold n; lia). unfold n in H. rewrite Nat.sub_diag in H. simpl in H.
+        inversion H; subst s2. rewrite nth_upd_eq by (rewrite app_length; simpl; fold h in L; unfold n; lia).
+        unfold ic_of. rewrite M. reflexivity.
+      * rewrite nth_upd_neq by auto.
+        destruct (Nat.lt_ge_cases j n) as [LT|GE].
+        -- rewrite nth_error_app1 in H by (unfold n in LT; exact LT). rewrite nth_app_lt by (fold h in L; unfold n in LT; lia).
+           apply X. exact H.
+        -- rewrite nth_error_app2 in H by (unfold n in GE; exact GE).
+           destruct (j - length (streams h))%nat as [|m] eqn:Q; simpl in H; [exfalso; unfold n in *; lia|destruct m; discriminate].
+Qed.
+
+Ltac kcrush :=
+  repeat (match goal with
+  | H1 : KInv ?K |- context [repoint_all ?K ?c ?sp ?l] =>
+      let HR := fresh "HR" in
+      pose proof (KInv_repoint_all c sp l K H1) as HR;
+      destruct (repoint_all K c sp l) as [[? ?] ?]; cbn [fst] in HR
+  | |- context [if ?b then _ else _] => destruct b
+  | |- context [match ?x with _ => _ end] => destruct x
+  end); cbn [fst sk]; try assumption; try (apply KInv_reset_memos; assumption).
+
+Lemma KInv_stepS S o : KInv (sk S) -> KInv (sk (fst (stepS Vf MWf pkgs utab S o))).
+Proof.
+  intros H. unfold stepS. cbv beta zeta.
+  destruct o as [ |i w|i w|i|i u r k|i u r k v|i u|i u v|i w r k v|i w v|i v|i v|i p|i l|i j f p t|i|i j|i k|i k|i w u r k|i w u r k v|i j w|i w r1 r2|fl|i rp ru rt rfl|i r]; cbv beta iota zeta.
+  26: { (* ms[phase] *)
+    destruct (nth_error (streams (uh (ku (sk S)))) i) as [s|] eqn:Hs; [|exact H].
+    destruct (negb (multi s)); [exact H|].
+    destruct (nth_error (phs s) r) as [p|]; [|exact H].
+    destruct (nth_error (getarr (uh (ku (sk S))) (sdata s)) r) as [d|]; [|exact H].
+    destruct (sub_find i p (s_subs S)); [exact H|].
+    cbn [new_cache new_box fst snd sk].
+    eapply KInv_grow; [exact H|..]; try reflexivity; reflexivity. }
+  all: match goal with |- context [stepK _ _ _ _ _ ?oo] =>
+         pose proof (KInv_stepK (sk S) oo H) as H1; destruct (stepK Vf MWf pkgs utab (sk S) oo) as [K1 x]; cbn [fst] in H1 end.
+  all: kcrush.
+Qed.
+
+Lemma KInv_runS ops : forall S, KInv (sk S) -> KInv (sk (fst (runS Vf MWf pkgs utab S ops))).
+Proof.
+  induction ops as [|o ops IH]; intros S H; simpl; auto.
+  pose proof (KInv_stepS S o H) as H1. destruct (stepS Vf MWf pkgs utab S o) as [S1 x]. cbn [fst] in H1.
+  specialize (IH S1 H1). destruct (runS Vf MWf pkgs utab S1 ops) as [S2 xs]. exact IH.
+Qed.
+Lemma KInv_buildS l : KInv (sk (buildS l)).
+Proof.
+  simpl. split; [apply inv_build|split; [apply UC_buildU|split; [apply PM_buildU|apply ICI_buildK]]].
+Qed.
+
+(* ---------- Stream.reset_flow: the flows are converted with the NEW phase ---------- *)
+Lemma set_item_boxes h s w r k v : boxes (fst (set_item Vf MWf pkgs h s w r k v)) = boxes h.
+Proof.
+  unfold set_item. destruct w.
+  - destruct (nth_error (rowrefs h s) r); reflexivity.
+  - unfold by_mass. destruct (c_mass (getcache h (cch s))); cbn [fst snd];
+      match goal with |- context [nth_error ?l r] => destruct (nth_error l r) end; reflexivity.
+  - destruct (nth_error (vv_rows (by_volume h s)) r) as [vr|]; [|reflexivity].
+    destruct (qzerob v); [reflexivity|].
+    destruct (vfactor Vf pkgs h (by_volume h s) vr k) as [V vr']. reflexivity.
+Qed.
+
+Lemma reset_flow_reads_back h i s p u w f k v :
+  Inv h -> nth_error (streams h) i = Some s -> multi s = false ->
+  unit_of utab u = Some (w, f) -> ~ f == 0 ->
+  (sdata s < length (rows h))%nat -> (pbox s < length (boxes h))%nat -> (k < length (getrow h (sdata s)))%nat ->
+  let h1 := fst (reset_flow Vf MWf pkgs utab h s (Some p) (Some u) None [(k, v)]) in
+  getbox h1 (pbox s) = p /\
+  exists h2 x, get_item Vf MWf pkgs h1 s w O k = (h2, Ok x) /\ f * x == v.
+Proof.
+  intros I Hs M U NZ D B K. unfold reset_flow. rewrite M. cbn [nonzero_opt]. rewrite U. cbn [set_items fst].
+  set (h0 := reset_flow_pre h s (Some p)).
+  assert (I0 : Inv h0) by (apply inv_reset_flow_pre; exact I).
+  assert (Hs0 : nth_error (streams h0) i = Some s).
+  { unfold h0. rewrite (proj2 (proj2 (reset_flow_pre_struct h s (Some p)))). exact Hs. }
+  assert (R0 : h0 = put_box (put_row h (sdata s) (vzero (length (getrow h (sdata s))))) (pbox s) p).
+  { unfold h0, reset_flow_pre, empty_all, rowrefs. rewrite M. reflexivity. }
+  assert (SR : nth_error (srcs h0 s) O = Some (sdata s, Box (pbox s))) by (unfold srcs; rewrite M; reflexivity).
+  assert (D0 : (sdata s < length (rows h0))%nat).
+  { rewrite R0. simpl. rewrite upd_length. exact D. }
+  assert (K0 : (k < length (getrow h0 (sdata s)))%nat).
+  { rewrite R0. unfold getrow. simpl. rewrite nth_upd_eq by auto. rewrite map_length. unfold vzero. rewrite repeat_length. exact K. }
+  assert (B0 : getbox h0 (pbox s) = p).
+  { rewrite R0. unfold getbox. simpl. apply nth_upd_eq. exact B. }
+  destruct (set_get_item h0 i s w O k (v / f) (sdata s) (Box (pbox s)) I0 Hs0 SR D0 K0) as (_ & h2 & x & G & X).
+  split.
+  - unfold getbox. rewrite set_item_boxes. exact B0.
+  - exists h2, x. split; [exact G|]. rewrite X. field. exact NZ.
 Qed.
 
 End Proofs.
